@@ -46,7 +46,11 @@ def o_envelope(v: View):
         if s.t_op > dl + TOL:
             yield "attempt-after-deadline", f"attempt {s.i} began at elapsed {s.t_op!r} > deadline {dl!r}"
     total = 0.0
+    t_fixed = None  # when the delay of the pending retry was fixed (the strategy call)
     for ev in v.trace:
+        if ev[0] == "strategy":
+            t_fixed = ev[10]
+            continue
         if ev[0] == "sleep":
             d, t = ev[2], ev[3]
         elif ev[0] == "dsleep":
@@ -54,7 +58,14 @@ def o_envelope(v: View):
         else:
             continue
         if not (d <= dl - t + TOL):
-            yield "sleep-exceeds-remaining", f"sleep of {d!r}s requested at elapsed {t!r} with deadline {dl!r} (remaining {dl - t!r})"
+            if t_fixed is not None and t > t_fixed and d <= dl - t_fixed + TOL:
+                # KF5: the delay fitted when it was fixed; the clock then advanced inside the sleep handler / before_sleep hook and the
+                # engine asked for the unchanged delay
+                yield "delay-fixed-before-a-slow-sleep-handler-or-before_sleep-hook-is-slept-unchanged", (
+                    f"sleep of {d!r}s requested at elapsed {t!r} with deadline {dl!r} (remaining {dl - t!r}); the delay was fixed at elapsed {t_fixed!r} "
+                    f"and {t - t_fixed!r}s then passed inside the sleep handler / before_sleep hook")
+            else:
+                yield "sleep-exceeds-remaining", f"sleep of {d!r}s requested at elapsed {t!r} with deadline {dl!r} (remaining {dl - t!r})"
         if d == d:
             total += d
     if total > dl + TOL:
